@@ -1,14 +1,14 @@
 #!/bin/bash
 # tools/seed.sh <ID> <name> : confirm a sub-agent's mutant in its worktree /tmp/wt/<ID> and store it under /verif/seeded/<name>/
 set -u
-ID=$1; NAME=${2:-$1}; WT=/tmp/wt/$ID; OUT=/verif/seeded/$NAME
+ID=$1; NAME=${2:-$1}; WT=${WTROOT:-/tmp/wt}/$ID; OUT=/verif/seeded/$NAME
 mkdir -p $OUT
 cd $WT || exit 1
 git diff -- socialchoicekit > $OUT/patch.diff
 cp demo_$ID.py $OUT/demo.py 2>/dev/null; cp NOTES_$ID.md $OUT/NOTES.md 2>/dev/null
 echo "== demo on changed tree"; PYTHONPATH=$WT timeout 600 /venv/bin/python demo_$ID.py > $OUT/demo_changed.log 2>&1; echo "exit $?" | tee -a $OUT/demo_changed.log
 echo "== tests on changed tree"; PYTHONPATH=$WT /venv/bin/python -m pytest -q -p no:cacheprovider tests 2>&1 | tail -1 | tee $OUT/tests_changed.log
-git stash -q
+git checkout -q -- socialchoicekit
 echo "== demo on unchanged tree"; PYTHONPATH=$WT timeout 600 /venv/bin/python demo_$ID.py > $OUT/demo_unchanged.log 2>&1; echo "exit $?" | tee -a $OUT/demo_unchanged.log
-git stash pop -q
+git apply $OUT/patch.diff
 wc -l $OUT/patch.diff
